@@ -54,6 +54,8 @@ class Model:
         self.p = subprocess.Popen([DRIVER], stdin=subprocess.PIPE, stdout=subprocess.PIPE, text=True, bufsize=1 << 16)
         self.pending = 0
         self.buf = []
+        if not hasattr(self, 'rec'):
+            self.rec = None     # when a list: every (line sent, answer line) is appended (extraction cross-check sample)
 
     def send(self, line):
         self.buf.append(line)
@@ -70,6 +72,8 @@ class Model:
             if l == '':
                 raise RuntimeError('model driver died: ' + ' | '.join(self.buf[-3:]))
             out.append(l.rstrip('\n'))
+        if self.rec is not None:
+            self.rec.extend(zip(self.buf, out))
         self.buf, self.pending = [], 0
         return out
 
